@@ -1,7 +1,7 @@
 INIT Init
 NEXT Next
 CONSTANTS
-  MaxCalls = 2
+  MaxCalls = 3
   BaseCalls <- MC_BaseCalls
   En <- MC_En
   ScalarLits <- MC_ScalarLits
@@ -16,7 +16,7 @@ CONSTANTS
   Want <- MC_Want
   FinalEn <- MC_FinalEn
   Stages <- MC_Stages
-  PRPredict <- MC_NoPR
+  PRPredict <- ProblemPred
+  Code <- MC_Code
 INVARIANT DenClosed
-
 CHECK_DEADLOCK FALSE
